@@ -40,6 +40,12 @@ Definition extract_part (n : nat) (h : bytes) : option bytes * bytes :=
   if Nat.eqb (length part) n && forallb is_lchex part
   then (Some (hex_decode part), rest) else (None, rest).
 
+(** TraceIDFromHex / SpanIDFromHex (trace/trace.go): exactly 2n lower-case hex digits, not all zero. *)
+Definition id_from_hex (n : nat) (h : bytes) : option bytes :=
+  if Nat.eqb (length h) (2 * n) && forallb is_lchex h
+  then (if forallb (fun x => x =? 0) (hex_decode h) then None else Some (hex_decode h))
+  else None.
+
 (** *** tracestate members *)
 Definition is_lcalpha (c : N) : bool := (97 <=? c) && (c <=? 122).
 Definition is_digit (c : N) : bool := (48 <=? c) && (c <=? 57).
